@@ -119,10 +119,17 @@ package txnsnapshot
 //@   modifies nothing
 //@   ensures forall i int :: 0 <= i && i < len(keys) ==> keys[i] == old(keys[i])
 
+// The snapshot cache is never filled for the "always read the latest data" snapshot (maximum timestamp): whoever calls
+// the cache update, such a snapshot answers every read from the stores. The key list is only read.
 //@ func (*KVSnapshot) UpdateSnapshotCache
-//@   trusted
+//@   prop C05
 //@   bytes: key
-//@   modifies KVSnapshot.mu
+//@   may-panic
+//@   opaque-callee Size
+//@   loop 1 invariant k1: forall i int :: 0 <= i && i < len(keys) ==> keys[i] == old(keys[i])
+//@   loop 2 invariant k2: forall i int :: 0 <= i && i < len(keys) ==> keys[i] == old(keys[i])
+//@   ensures maxts: old(s.version) == 18446744073709551615 ==> s.mu.cached == old(s.mu.cached) && s.mu.cachedSize == old(s.mu.cachedSize) && (forall k string :: inDom(s.mu.cached, k) == old(inDom(s.mu.cached, k)))
+//@   ensures forall i int :: 0 <= i && i < len(keys) ==> keys[i] == old(keys[i])
 
 // A batch of a point batch-get keeps its region after a region error only if EVERY key of the batch still lies in the region
 // now holding its first key (the keys are in the caller's order, not sorted); otherwise the caller splits the batch again.
@@ -160,3 +167,19 @@ package txnsnapshot
 //@   requires m != nil
 //@   ensures collected: v.Value != "" || readTier == BatchGetBufferTier ==> inDom(m, string(k))
 //@   ensures skipped: v.Value == "" && readTier != BatchGetBufferTier ==> inDom(m, string(k)) == old(inDom(m, string(k)))
+
+// What the resolver reported is remembered in the right set: lock ids that may be IGNORED (rolled back, committed after
+// the reader, min-commit-ts pushed) go to the resolved set, ids whose transaction committed at or before the reader - to be
+// read THROUGH - go to the committed set; the two are sent to the stores under different request fields and must not be mixed.
+//@ func (*ClientHelper) ResolveLocksWithOpts
+//@   prop C05
+//@   may-panic
+//@   opaque-callee RecordRPCRuntimeStats
+//@   at call(Put#1) assert ignored: recv == ch.resolvedLocks && arg0 == res.IgnoreLocks
+//@   at call(Put#2) assert readthrough: recv == ch.committedLocks && arg0 == res.AccessLocks
+//@ func (*ClientHelper) ResolveLocks
+//@   prop C05
+//@   may-panic
+//@   opaque-callee RecordRPCRuntimeStats
+//@   at call(Put#1) assert ignored: recv == ch.resolvedLocks && arg0 == resolvedLocks
+//@   at call(Put#2) assert readthrough: recv == ch.committedLocks && arg0 == committedLocks
